@@ -27,7 +27,7 @@ func NewDelegateListener(delegateListener core.Listener) *DelegateListener {
 func (l *DelegateListener) OnDropped() {
 	l.delegateListener.OnDropped()
 	// unblock
-	l.c.Broadcast()
+	l.unblock()
 }
 
 // OnIgnore is called to indicate the operation failed before any meaningful RTT measurement could be made and
@@ -35,7 +35,7 @@ func (l *DelegateListener) OnDropped() {
 func (l *DelegateListener) OnIgnore() {
 	l.delegateListener.OnIgnore()
 	// unblock
-	l.c.Broadcast()
+	l.unblock()
 }
 
 // OnSuccess is called as a notification that the operation succeeded and internally measured latency should be
@@ -43,5 +43,13 @@ func (l *DelegateListener) OnIgnore() {
 func (l *DelegateListener) OnSuccess() {
 	l.delegateListener.OnSuccess()
 	// unblock
+	l.unblock()
+}
+
+// unblock wakes every caller waiting for a release. Passing through the lock first makes sure a
+// waiter that has subscribed but is not asleep yet (it holds the lock until it is) gets the signal.
+func (l *DelegateListener) unblock() {
+	l.c.L.Lock()
+	l.c.L.Unlock()
 	l.c.Broadcast()
 }
